@@ -152,8 +152,10 @@ namespace options
 
                     while (std::getline(str, element, ';'))
                     {
-                        update_value(element);
+                        value_.push_back(element);
                     }
+
+                    dirty_ = true;
 
                     return;
                 }
